@@ -1,3 +1,3 @@
 SPECIFICATION Spec
-INVARIANTS T_All T_ReservedOnlyDrops
+INVARIANT T_All
 CHECK_DEADLOCK FALSE
